@@ -175,7 +175,7 @@ func (s *adnlServer) addr() string { return s.ln.Addr().String() }
 func (s *adnlServer) close()       { s.ln.Close() }
 
 // accept waits for one TCP connection and runs the handshake. replyNonce is the nonce of the empty confirmation
-// packet. With sendReply=false the server stays silent after a valid handshake (used by the C12 scripts).
+// packet; with replyNonce == nil no confirmation is written (the caller sends, corrupts or withholds it itself).
 func (s *adnlServer) accept(deadline time.Duration, replyNonce []byte) (*srvConn, error) {
 	if tl, ok := s.ln.(*net.TCPListener); ok {
 		tl.SetDeadline(time.Now().Add(deadline))
